@@ -79,7 +79,7 @@ def run_case(case, env):
         out['evals'] = 0
         for t in case['also'] + [case['tree']]:
             R = build({'kind': 'regexp', 'tree': t})
-            st, val, ticks = call(env, ra.regexp_to_nfa, R)
+            st, val, ticks = call(env, ra.regexp_to_nfa, R, budget=20_000_000)
             out['ticks'] += ticks
             out['evals'] += 1
             if st == 'ok':
@@ -110,7 +110,7 @@ def run_case(case, env):
     if case['kind'] == 'rx':
         tree = case['tree']
         R = build({'kind': 'regexp', 'tree': tree})
-        st, val, ticks = call(env, ra.regexp_to_nfa, R)
+        st, val, ticks = call(env, ra.regexp_to_nfa, R, budget=20_000_000)
         out['ticks'] += ticks
         site = 'regexp_to_nfa'
         out['probes']['kind_regexp'] = 1
@@ -170,7 +170,7 @@ def run_case(case, env):
         if role == 'main':
             fp = order_fingerprint(D, case.get('rank', {}))
         out['evals'] += 1
-        st, val, ticks = call(env, ra.dfa_to_regexp, D, budget=6_000_000)
+        st, val, ticks = call(env, ra.dfa_to_regexp, D, budget=40_000_000)
         out['ticks'] += ticks
         if snapshot(D) != s0:
             out['viol'].append(viol('argument-mutated', site, {'before': s0, 'after': snapshot(D)}, tags=tags))
